@@ -61,7 +61,8 @@ FileVerdict(f) == CASE f \in {"none", "absent", "absent-in-subdir"} -> "accept"
                     [] OTHER -> "reject"
 
 \* --password: the passphrase as typed is part of the source secret AND of the master block that is echoed
-PwClasses == {"none", "ascii", "nfkd-sensitive", "blank-padded", "empty", "json-like"}
+\* "at-existing-file": the passphrase is '@' followed by the name of a file that exists in the working directory
+PwClasses == {"none", "ascii", "nfkd-sensitive", "blank-padded", "empty", "json-like", "at-existing-file"}
 TakesPassword(c) == c \in {"new", "from-mnemonic", "from-entropy-hex"}
 PwVerdict(c, w) == IF w = "none" \/ TakesPassword(c) THEN "accept" ELSE "reject"     \* unknown option of that sub-command
 
